@@ -94,6 +94,70 @@ pub fn run_bin(toks: &[&str], dir: &Path) -> String {
             let _ = child.wait();
             r
         }
+        "dup" => {
+            // --duplicate-packets N in real time: a raw client that acknowledges every copy counts the copies of each block
+            let (n, ws, tmo) = (toks[2].parse::<u64>().unwrap(), toks[3].parse::<u64>().unwrap(), toks[4]);
+            let blk = 8u64;
+            let nblocks = 2 * ws + 1;
+            let content = pattern(3, (nblocks - 1) * blk + 2);
+            std::fs::write(root.join("srv").join("d.bin"), &content).unwrap();
+            let port = free_port();
+            let mut args = server_args("-", &root, port, false);
+            args.extend(["--duplicate-packets".to_string(), n.to_string()]);
+            let mut child = Command::new(bin("VERIF_TFTPD")).args(args).stdout(Stdio::null()).stderr(Stdio::null()).spawn().unwrap();
+            std::thread::sleep(Duration::from_millis(150));
+            let sock = UdpSocket::bind("127.0.0.1:0").unwrap();
+            let o = |k: tftpd::OptionType, v: usize| tftpd::TransferOption { option: k, value: v };
+            let rq = Packet::Rrq { filename: "d.bin".into(), mode: "octet".into(), options: vec![o(tftpd::OptionType::BlockSize, blk as usize), o(tftpd::OptionType::Windowsize, ws as usize), o(tftpd::OptionType::Timeout, tmo.parse().unwrap())] };
+            sock.send_to(&rq.serialize().unwrap(), ("127.0.0.1", port)).unwrap();
+            sock.set_read_timeout(Some(Duration::from_millis(3000))).unwrap();
+            let mut buf = [0u8; 2048];
+            let mut copies: std::collections::BTreeMap<u64, u64> = Default::default();
+            let mut got: Vec<u8> = vec![];
+            let mut expect = 1u64;
+            let mut done = false;
+            let mut in_window = 0u64;
+            let mut last_acked = 0u64;
+            let r = match sock.recv_from(&mut buf) {
+                Ok((_, tid)) => {
+                    sock.send_to(&Packet::Ack(0).serialize().unwrap(), tid).unwrap();
+                    let deadline = Instant::now() + Duration::from_secs(60);
+                    while Instant::now() < deadline {
+                        match sock.recv_from(&mut buf) {
+                            Ok((len, _)) if len >= 4 && buf[1] == 3 => {
+                                let k = ((buf[2] as u64) << 8) | buf[3] as u64;
+                                *copies.entry(k).or_insert(0) += 1;
+                                if !done && k == expect {
+                                    got.extend_from_slice(&buf[4..len]);
+                                    expect += 1;
+                                    in_window += 1;
+                                    if (len as u64) < blk + 4 {
+                                        done = true;
+                                    }
+                                    if done || in_window == ws {
+                                        in_window = 0;
+                                        last_acked = k;
+                                        let _ = sock.send_to(&Packet::Ack(k as u16).serialize().unwrap(), tid);
+                                    }
+                                } else if k == last_acked {
+                                    // a conformant windowed peer that acknowledges every copy of the block that closes a window
+                                    let _ = sock.send_to(&Packet::Ack(k as u16).serialize().unwrap(), tid);
+                                }
+                            }
+                            Ok(_) => {}
+                            Err(_) => break, // silence: the server is done (or gave up)
+                        }
+                    }
+                    let worst = copies.values().cloned().max().unwrap_or(0);
+                    let least = copies.values().cloned().min().unwrap_or(0);
+                    format!("copies={least}..{worst} blocks={} same={}", copies.len(), (got == content) as u8)
+                }
+                Err(_) => "noreply".to_string(),
+            };
+            let _ = child.kill();
+            let _ = child.wait();
+            r
+        }
         "xfer" => {
             let flags = toks[2];
             let upload = toks[3] == "u";
@@ -147,6 +211,8 @@ pub fn gen_bin(_rng: &mut Rng, _count: u64, tier: &str) -> Vec<String> {
     ] {
         out.push(format!("bin start {}", h(&args)));
     }
+    out.push("bin dup 254 6 1".into());
+    out.push("bin dup 2 3 1".into());
     out.push("bin rt - 1".into());
     out.push("bin rt s 2".into());
     let mut grid = vec![];
